@@ -44,6 +44,9 @@ var (
 	// capability version 3 describes 64 bits per set: the kernel reads two data structures
 	dropCapData = [2]unix.CapUserData{}
 
+	// mount_setattr argument that makes a mount tree read-only
+	readOnlyMountAttr = unix.MountAttr{Attr_set: unix.MOUNT_ATTR_RDONLY}
+
 	// 1ms
 	etxtbsyRetryInterval = unix.Timespec{
 		Nsec: 1 * 1000 * 1000,
